@@ -307,10 +307,12 @@ func NewContext(maxParams uint16) *RequestContext {
 // Loop fn for every k/v in Keys
 func (ctx *RequestContext) ForEachKey(fn func(k string, v interface{})) {
 	ctx.mu.RLock()
+	// deferred: fn is user code, and a panic in it (recovered by the recovery middleware) must not leave
+	// the lock held on a context that is going to be recycled
+	defer ctx.mu.RUnlock()
 	for key, val := range ctx.Keys {
 		fn(key, val)
 	}
-	ctx.mu.RUnlock()
 }
 
 func (ctx *RequestContext) SetConn(c network.Conn) {
